@@ -199,6 +199,9 @@ func (s *udpServer) handleMsg(b, oob []byte, remoteAddr, listenerAddr netip.Addr
 	})
 }
 
+// 65535 - 20 (ip header) - 8 (udp header)
+const maxUdpPayloadSize = 65507
+
 func (s *udpServer) handleReq(m *dnsmsg.Msg, rc *RequestContext, oobAddr netip.Addr) {
 	s.r.handleServerReq(m, rc)
 
@@ -212,6 +215,11 @@ func (s *udpServer) handleReq(m *dnsmsg.Msg, rc *RequestContext, oobAddr netip.A
 	}
 	if clientUdpSize < 512 {
 		clientUdpSize = 512
+	}
+	// A client may advertise up to 65535, but a udp datagram cannot carry
+	// more than 65507 bytes (ipv4). A larger response could not be sent at all.
+	if clientUdpSize > maxUdpPayloadSize {
+		clientUdpSize = maxUdpPayloadSize
 	}
 
 	b := mustHaveRespB(m, rc.Response.Msg, dnsmsg.RCodeRefused, false, clientUdpSize)
